@@ -540,6 +540,22 @@ func (e *Env) callExpr(n *ast.CallExpr) Term {
 		so := u.ss.sortOf(t)
 		_, ub := u.boxFn(so)
 		return Term{S: fmt.Sprintf("(%s (ival %s))", ub, a.S), Sort: so, T: t}
+	case "skolem":
+		// skolem("K", "pkg.Type"): an arbitrary but fixed value of the type ("for all K")
+		l1, ok1 := n.Args[0].(*ast.BasicLit)
+		l2, ok2 := n.Args[1].(*ast.BasicLit)
+		if !ok1 || !ok2 {
+			fail("skolem needs two string literals")
+		}
+		nm, _ := strconv.Unquote(l1.Value)
+		tn, _ := strconv.Unquote(l2.Value)
+		t := u.p.lookupType(tn)
+		if t == nil {
+			fail("unknown type %s", tn)
+		}
+		r := u.declOnce("sk."+nm, u.ss.sortOf(t))
+		r.T = t
+		return r
 	case "asType":
 		a := e.tr(n.Args[0])
 		lit, ok := n.Args[1].(*ast.BasicLit)
